@@ -112,42 +112,38 @@ namespace Fit
 /-- `static_cast<Index>` of a non-negative real: the floor -/
 noncomputable def truncR (x : ℝ) : ℕ := ⌊x⌋₊
 
-theorem bsplineNumPts_ge (K : ℕ) (t0 t1 dt : ℝ) (hdt : 0 < dt) (h01 : t0 ≤ t1) :
-    K + 1 ≤ bsplineNumPts truncR K t0 t1 dt := by
-  unfold bsplineNumPts truncR
-  have : (1 : ℝ) ≤ (t1 - t0 + dt) / dt := by
-    rw [le_div_iff₀ hdt]; linarith
-  have := Nat.le_floor (α := ℝ) (n := 1) (by simpa using this)
-  omega
+theorem bsplineNumPts_ge (trunc : ℝ → ℕ) (K : ℕ) (t0 t1 dt : ℝ) :
+    K + 1 ≤ bsplineNumPts trunc K t0 t1 dt := by
+  unfold bsplineNumPts; omega
 
-/-- `t_max = t0 + (NumPts − K)·dt ≥ t1` (in fact `> t1`) in exact arithmetic -/
+/-- `t_max = t0 + (NumPts − K)·dt > t1` in exact arithmetic -/
 theorem bsplineTmax_covers (K : ℕ) (t0 t1 dt : ℝ) (hdt : 0 < dt) :
     t1 < bsplineTmax truncR K t0 t1 dt := by
   unfold bsplineTmax bsplineNumPts truncR
-  simp only [Scalar.nat_real, Nat.add_sub_cancel_left]
-  have h := Nat.lt_floor_add_one ((t1 - t0 + dt) / dt)
-  have h2 : (t1 - t0 + dt) / dt = (t1 - t0) / dt + 1 := by field_simp
-  rw [h2] at h ⊢
-  have h3 : (t1 - t0) / dt < (⌊(t1 - t0) / dt + 1⌋₊ : ℝ) := by linarith
-  have h4 : t1 - t0 < (⌊(t1 - t0) / dt + 1⌋₊ : ℝ) * dt := by
-    rwa [div_lt_iff₀ hdt] at h3
+  have hsub : K + 1 + ⌊(t1 - t0) / dt⌋₊ - K = ⌊(t1 - t0) / dt⌋₊ + 1 := by omega
+  simp only [Scalar.nat_real, hsub, Nat.cast_add, Nat.cast_one]
+  have h := Nat.lt_floor_add_one ((t1 - t0) / dt)
+  have h4 : t1 - t0 < ((⌊(t1 - t0) / dt⌋₊ : ℝ) + 1) * dt := by
+    rwa [div_lt_iff₀ hdt] at h
   linarith
 
-/-- in exact arithmetic every data time `t ∈ [t0, t1]` has its window of `K+1` control points:
-    `istar + K + 1 ≤ NumPts` with `istar = ⌊(t − t0)/dt⌋`.  (In floating point the two quotients
-    `(t1−t0)/dt` and `(t1−t0+dt)/dt` are rounded separately and this can fail by one — the
-    `fit_bspline` abort found by the audit.) -/
-theorem bspline_window_exact (K : ℕ) (t0 t1 dt t : ℝ) (hdt : 0 < dt) (h0 : t0 ≤ t) (h1 : t ≤ t1) :
-    truncR ((t - t0) / dt) + K + 1 ≤ bsplineNumPts truncR K t0 t1 dt := by
-  unfold bsplineNumPts truncR
-  have h2 : (t1 - t0 + dt) / dt = (t1 - t0) / dt + 1 := by field_simp
-  have hq : 0 ≤ (t1 - t0) / dt := by apply div_nonneg <;> linarith
-  rw [h2, Nat.floor_add_one hq]
-  have : ⌊(t - t0) / dt⌋₊ ≤ ⌊(t1 - t0) / dt⌋₊ := by
-    apply Nat.floor_le_floor
-    apply div_le_div_of_nonneg_right _ (le_of_lt hdt)
-    linarith
+/-- every data time `t ≤ t1` has its window of `K+1` control points, `istar + K + 1 ≤ NumPts` with
+    `istar = trunc((t − t0)/dt)` — for ANY monotone integer conversion and any (e.g. rounded)
+    quotients that are ordered like the times: the count is now derived from the same expression
+    the evaluation uses, so the property no longer depends on exact arithmetic. -/
+theorem bspline_window (trunc : ℝ → ℕ) (htr : Monotone trunc) (K : ℕ) (t0 t1 dt : ℝ) (q : ℝ)
+    (hq : q ≤ (t1 - t0) / dt) :
+    trunc q + K + 1 ≤ bsplineNumPts trunc K t0 t1 dt := by
+  unfold bsplineNumPts
+  have := htr hq
   omega
+
+theorem truncR_mono : Monotone truncR := fun _ _ h => Nat.floor_le_floor h
+
+theorem bspline_window_exact (K : ℕ) (t0 t1 dt t : ℝ) (hdt : 0 < dt) (h1 : t ≤ t1) :
+    truncR ((t - t0) / dt) + K + 1 ≤ bsplineNumPts truncR K t0 t1 dt :=
+  bspline_window truncR truncR_mono K t0 t1 dt _
+    (div_le_div_of_nonneg_right (by linarith) (le_of_lt hdt))
 
 end Fit
 
@@ -360,5 +356,38 @@ theorem start_speed_le (startVel v2max0 : ℝ) :
   have : startVel * startVel = startVel ^ 2 := by ring
   rw [this]
   exact min_le_left _ _
+
+
+/-- `v2max` after the reverse pass is non-negative whatever the linear programmes returned -/
+theorem backward_nonneg (lpres : List (ℝ × ℝ × ℕ)) (v2end : ℝ) (h : 0 ≤ v2end) :
+    ∀ y ∈ backward lpres v2end, 0 ≤ y := by
+  induction lpres with
+  | nil => intro y hy; simp [backward] at hy; rw [hy]; exact h
+  | cons r t ih =>
+    intro y hy
+    have hb : backward (r :: t) v2end
+        = (if r.2.2 = 0 then Scalar.max (nat 0) r.1 else if r.2.2 = 2 then inf else nat 0) :: backward t v2end := rfl
+    rw [hb] at hy
+    rcases List.mem_cons.1 hy with rfl | hy
+    · split
+      · rw [max_real]; simp
+      · split
+        · simp [inf]
+        · simp
+    · exact ih y hy
+
+/-- the guard `if (dt > 0)`: every emitted segment has a positive duration -/
+theorem fwdStep_emits_positive {n : ℕ} (b : Bounds ℝ n) (ds si v2next v2m : ℝ) (p : Sample ℝ n) (sg : SegOut ℝ)
+    (h : (fwdStep b ds si v2next v2m p).2 = some sg) : 0 < sg.dt := by
+  unfold fwdStep at h
+  simp only [] at h
+  split at h
+  · simp at h
+  · split at h
+    · rename_i hpos
+      simp only [Option.some.injEq] at h
+      rw [← h]
+      simpa [mkSeg] using hpos
+    · simp at h
 
 end Reparam
